@@ -277,6 +277,14 @@ func TestWorker(t *testing.T) {
 			out.PerClass[cls]++
 			if res.Capped {
 				out.Capped++
+				if survey {
+					fp := "CAPPED|" + cls
+					out.Survey[fp]++
+					if _, ok := out.SurveyMsg[fp]; !ok {
+						b, _ := json.Marshal(sc)
+						out.SurveyMsg[fp] = "step cap reached || " + string(b)
+					}
+				}
 			}
 			if res.Deadlock {
 				out.Deadlocks++
